@@ -122,7 +122,11 @@ def main():
             if not os.path.exists(meta):
                 continue
             m = json.load(open(meta))
-            r = check(os.path.join(d, "patch.diff"), m.get("checks", [m["property"]]), tier)
+            try:
+                r = check(os.path.join(d, "patch.diff"), m.get("checks", [m["property"]]), tier)
+            except SystemExit as exc:          # the patch no longer applies to /repo's tree: rebase it (git apply --3way in a scratch worktree)
+                print("%-40s PATCH-DOES-NOT-APPLY %s" % (name, str(exc)[:120]))
+                r = {p: "PATCH-DOES-NOT-APPLY" for p in m.get("checks", [m["property"]])}
             res.append((name, r))
         merged = json.load(open(os.path.join(base, "RESULTS.json"))) if only and os.path.exists(os.path.join(base, "RESULTS.json")) else {}
         merged.update({n: r for n, r in res})
